@@ -1,3 +1,5 @@
+import json
+
 from circuits import Component, handler
 from circuits.core import Value
 from circuits.net.events import write
@@ -25,13 +27,22 @@ class Protocol(Component):
             self.__buffer += data
 
         packets = self.__buffer.split(DELIMITER)
+        tail = packets.pop()
         self.__buffer = b''
 
         for packet in packets:
             try:
                 self.__process_packet(packet)
             except ValueError:
-                self.__buffer = packet
+                pass  # malformed complete packet
+
+        if tail:
+            # no delimiter yet: either an incomplete packet (keep it) or a
+            # complete one whose delimiter has not been read yet
+            try:
+                self.__process_packet(tail, partial=True)
+            except ValueError:
+                self.__buffer = tail + self.__buffer
 
     @handler(channel='node_result', priority=100)
     def result_handler(self, event, *args, **kwargs):
@@ -82,8 +93,13 @@ class Protocol(Component):
         else:
             self.fire(write(packet))
 
-    def __process_packet(self, packet):
+    def __process_packet(self, packet, partial=False):
         packet = packet.decode('utf-8')
+        if partial:
+            try:
+                json.loads(packet)  # ValueError: not complete yet
+            except RecursionError:
+                raise ValueError('too deeply nested (so far)')
 
         # FIXME: the encoding of values is hardcoded to UTF-8.
         # at least protect against DoS attempts causing UnicodeDecodeError
